@@ -102,7 +102,7 @@ def wrong_type_leaves(n):
             ("sequence-under-any", ["seq", [["bool"]]], False)]
 
 
-def calibrate(impl, items):
+def calibrate(impl, items, keep_unsat=True):
     """items: [(file, document with string placeholders)].  The loaders parse some strings after decoding
     (object / field references, builder.option names), which the model does not describe: instantiate the
     placeholders with the first of a / a.b / a.b.c (uniform, then mixed) that the real loader accepts.
@@ -123,7 +123,7 @@ def calibrate(impl, items):
             out.append(chosen[bi])
         else:
             unsat += 1
-            out.append(cg.subst_fill(d, "a.b"))
+            out.append(cg.subst_fill(d, "a.b") if keep_unsat else None)
     return out, unsat
 
 
@@ -195,7 +195,8 @@ def make_cases(ctx, T, impl):
                 steps.append(("elem",))
             if n["k"] != "obj":
                 continue
-            unions = [c for c in F["conv"].get(n["ref"], []) if c[0] == "union" and c[2]]
+            # (whether or not the dispatch is seen to end in an error: if it does not, that is the failure)
+            unions = [c for c in F["conv"].get(n["ref"], []) if c[0] == "union" and len(c[1]) > 1]
             if not unions:
                 continue
             keys = unions[0][1]
@@ -235,9 +236,13 @@ def make_cases(ctx, T, impl):
             last = p[-1][1]
             d = cg.inject(doc, parent, last, ["null"])
             add(fname, "other", d, d, cg.steps_text(p), what="duplicate-key")
-    free_docs, _ = calibrate(impl, free_items)
+    # a substituted leaf that is itself a parsed string (`object: 1`) has no accepted instantiation: such a
+    # variant says nothing about decoding and is dropped (counted)
+    free_docs, _ = calibrate(impl, free_items, keep_unsat=False)
+    stats["wrong_type_variants_dropped_value_syntax"] = sum(1 for d in free_docs if d is None)
     for (fname, p, what), d in zip(free_meta, free_docs):
-        add(fname, "other", d, d, cg.steps_text(p), what=what)
+        if d is not None:
+            add(fname, "other", d, d, cg.steps_text(p), what=what)
     for fname in cg.FILES:
         for what, d in [("top-sequence", ["seq", []]), ("top-scalar", ["str", "x"]), ("top-empty-mapping", ["map", []])]:
             add(fname, "other", d, d, "<root>", what=what)
